@@ -195,6 +195,9 @@ func (s *status) DeleteShardMetadata(namespace string, shard int64) {
 
 func NewStatusResource(meta metadata.Provider) StatusResource {
 	s := status{
+		Logger: slog.With(
+			slog.String("component", "status-resource"),
+		),
 		lock:             sync.RWMutex{},
 		metadata:         meta,
 		currentVersionID: metadata.NotExists,
